@@ -18,12 +18,16 @@ PROPS = {}
 PROPS["C11"] = dict(
     level="model_checking",
     level_text="Bounded exhaustive model checking of the VLQ specification plus conformance of the real codec on every enumerated and on seeded random inputs, judged by TLC; right level because the codec is a small state machine whose whole digit/carry structure is covered by the bounded universe",
-    level_note="trusted: TLC, the harness's i64<->bit-list conversion and symbol table; not the crate's own inverse function. 2^33 sweep not reproduced.",
+    level_note="trusted: TLC, Apalache (symbolic round trip over all 62-bit values, on the specification), the harness's i64<->bit-list conversion and symbol table; not the crate's own inverse function. The 2^33 sweep over the IMPLEMENTATION is not reproduced.",
     technique="TLA+ bit-level VLQ spec (Vlq.tla): TLC checks machine = declarative reading, Dec(Enc(v)) = v, canonical fixpoints on a bounded universe; every enumerated text/value and seeded random ones are run through parse_vlq_segment/generate_vlq_segment and the trace is validated by TLC against Trace_C11.tla",
     mc=[
         dict(module="MC_Vlq", cfg="MC_Vlq_quick.cfg", tiers=("quick",), workers=8),
         dict(module="MC_Vlq", cfg="MC_Vlq_thorough.cfg", tiers=("thorough",), workers=12, timeout=3000, heap="16g"),
+        # the unrolled formulation used for the symbolic check produces exactly Vlq!Enc's digits
+        dict(module="MC_VlqApa", cfg="MC_VlqApa.cfg", workers=4, gen=False),
     ],
+    symbolic=[dict(name="vlq", module="VlqApa", inv="RoundTrip", length=0, timeout=900,
+                   claim="Dec(Enc(v)) = v and the decoder stops exactly after the last digit, for EVERY sign and EVERY 62-bit magnitude (2^63 values, bits are SMT variables)")],
     trace="Trace_C11",
     drive=dict(quick=dict(n=20000, size=4), thorough=dict(n=400000, size=6)),
     nontrivial=lambda e: (e["op"] == "dec" and len(e["args"]["ds"]) >= 2) or (e["op"] == "enc" and any(v["bits"] for v in e["args"]["vals"])),
